@@ -32,6 +32,7 @@ def dispatch (m : String) (j : Json) : Except String Json :=
   | "ver" => verJ j
   | "defaults" => defaultsJ j
   | "pmap" => pmapJ j
+  | "pmaptrace" => pmapTraceJ j
   | "codec" => codecJ j
   | "writer" => writerJ j
   | _ => .error s!"unknown model {m}"
